@@ -1805,7 +1805,26 @@ def check_C05(ctx):
                 for o in sm.obligations:
                     if "are_unique" in o.fn:
                         continue
-                    rep.ob("C05.panic-site.entry", "%s::%s %s %s L%s" % (short(path), meth, short(o.fn), o.kind, o.line), o.cond[0] == "c" and bool(o.cond[1]), "panic site %s in %s" % (o.kind, short(o.fn)), pdb.where(o.fn))
+                    okk = o.cond[0] == "c" and bool(o.cond[1])
+                    if not okk and o.cond[0] != "c":
+                        # arithmetic on the hand's value (e.g. in the name/class conversion): the value is a u16;
+                        # discharge over all 65536 values
+                        calls = {id(x): x for root in [o.cond] + list(o.pc) for x in walk(root) if x[0] == "call" and x[1].startswith("fn:")}
+                        if len(calls) == 1:
+                            cn = next(iter(calls.values()))
+                            if ty_of(cn) == "u16":
+                                va = atom("$v", "u16")
+                                c2 = substitute(o.cond, lambda nd: va if nd is cn else None)
+                                pc2 = [substitute(c, lambda nd: va if nd is cn else None) for c in o.pc]
+                                if set(atoms_of(c2)) <= {"$v"} and all(set(atoms_of(c)) <= {"$v"} for c in pc2):
+                                    okk = True
+                                    for v_ in range(65536):
+                                        env = {"$v": v_}
+                                        if all(cval(evaluate(pdb, c, env)) for c in pc2) and not cval(evaluate(pdb, c2, env)):
+                                            okk = False
+                                            break
+                                    rep.evals(65536)
+                    rep.ob("C05.panic-site.entry", "%s::%s %s %s L%s" % (short(path), meth, short(o.fn), o.kind, o.line), okk, "panic site %s in %s" % (o.kind, short(o.fn)), pdb.where(o.fn))
             ctx.guard("V.are_unique." + short(path), premise_unique, ctx, path, n, "C05.are_unique")
     ctx.guard("C05.entries", entries)
     # build profile without overflow checks
